@@ -57,6 +57,9 @@ func Gen(t *rapid.T) Case {
 			CAFile:   rapid.SampledFrom(caFiles).Draw(t, "prev_ca_file"),
 		}
 	}
+	if c.Prev == nil && rapid.IntRange(0, 7).Draw(t, "blank-path") == 0 {
+		c.Blank = rapid.SampledFrom([]string{"cert", "ca"}).Draw(t, "blank-which")
+	}
 	c.ServerName = rapid.SampledFrom(serverNames).Draw(t, "server_name")
 	c.Insecure = rapid.Bool().Draw(t, "insecure")
 	c.Callback = rapid.SampledFrom(callbacks).Draw(t, "callback")
@@ -101,7 +104,7 @@ func Enumerate(yield func(Case) bool) {
 			for _, lc := range loadedCerts {
 				for _, lk := range loadedKeys {
 					for _, caf := range caFiles {
-						for _, lca := range loadedCAs {
+						for _, lca := range loadedCAs[:3] { // the pinned non-CA root is left to the second sweep and the random tier
 							for _, pl := range pools {
 								for _, sn := range serverNames {
 									for _, ins := range []bool{false, true} {
